@@ -134,6 +134,13 @@ Theorem C05_unmasked :
     exists b0 rest, bl = b0 :: rest /\ In o (ns b0) /\ lookup (defines_of ns) m (m_name o) b0.
 Proof. exact unmasked_lookup. Qed.
 
+(* The "overrides" note of a member names what attribute lookup finds once the class itself is skipped. *)
+Theorem C05_overrides :
+  forall (h : hier) (ns : namespace) c n d o,
+    overrides h ns c n = Some (d, o) ->
+    lookup (defines_of ns) (d_tail (class_mro h c)) n d /\ contents_get ns d n = Some o.
+Proof. exact overrides_lookup. Qed.
+
 (* ---- non-vacuity --------------------------------------------------------------------------------- *)
 Local Open Scope N_scope.
 (* diamond 1 <- 2, 1 <- 3, 4(2,3); 5(1,2) is rejected by Python (1 before its subclass 2); 6(5) inherits the rejection *)
